@@ -156,6 +156,10 @@ def run(chk):
         chk.ok("C09.pause", pend[0], f"{len(pend)} paused exits report PAYLOAD_HAS_PENDING_INPUT (resumed by feed_data(b''))")
     else:
         chk.violation("C09.pause", fdp, "return PayloadState.PAYLOAD_HAS_PENDING_INPUT, b''", f"{len(okp)}/{len(pend)} under (self._paused)", "a paused body parser does not report pending input: decoding never resumes")
+    # a pause request never outlives the call that honours it: pause_reading() sets the flag while payload.feed_data() runs; if a call
+    # returns "need more input" / "complete" with the flag still set, reading is resumed later with a stale flag and the next data is
+    # parked as "pending input" while nothing is paused - nobody resumes the parser, the rest of the body is never delivered
+    stale_rule(chk, repo)
     hp = repo.func(HP, "HttpParser.feed_data")
     st = [s for s, _b in K.stmts(hp, "self._payload_has_more_data = payload_state == PayloadState.PAYLOAD_HAS_PENDING_INPUT")]
     loop = [w for w in ast.walk(hp.node) if isinstance(w, ast.While) and "self._payload_has_more_data" in norm.raw(w.test)]
@@ -272,3 +276,31 @@ def run(chk):
         chk.ok("C09.errors", pf[0][0], "body parser errors are set on the payload stream (the reader sees a payload error, not silence)")
     else:
         chk.violation("C09.errors", hp, "self._payload_parser.feed_data(...)", "except Exception: set_exception(payload, ...)", "a failing body parse is not reported on the stream")
+
+
+def stale_rule(chk, repo, rule="C09.pause.stale"):
+    fdp = repo.func(HP, "HttpPayloadParser.feed_data")
+    g = cfg_of(fdp.node)
+    clears = [n for n in g.nodes if n.kind == "stmt" and isinstance(n.ast, ast.Assign) and norm.raw(n.ast.targets[0]) == "self._paused" and isinstance(n.ast.value, ast.Constant) and n.ast.value.value is False]
+    # alternative repair: the flag is cleared by whoever resumes reading
+    outside = [(fn, hits) for fn, hits in prog.writers(repo, [HP, "aiohttp/base_protocol.py", "aiohttp/client_proto.py", "aiohttp/web_protocol.py"], "_paused").items()
+               if fn.qualname not in ("HttpPayloadParser.feed_data", "HttpPayloadParser.feed_eof", "HttpPayloadParser.__init__", "HttpPayloadParser.pause_reading")
+               and fn.qualname.split(".")[0] in ("HttpPayloadParser", "HttpParser", "HttpRequestParser", "HttpResponseParser")
+               and any(isinstance(K.stmt_of(h), ast.Assign) and isinstance(K.stmt_of(h).value, ast.Constant) and K.stmt_of(h).value.value is False for h, _k in hits)]
+    if outside:
+        chk.ok(rule, outside[0][1][0][0], f"the pause flag is cleared when reading resumes ({outside[0][0].qualname})")
+        return
+    bad = 0
+    rets = [n for n in g.nodes if n.kind == "stmt" and isinstance(n.ast, ast.Return) and n.in_finally_copy is None]
+    for r in rets:
+        if "PAYLOAD_NEEDS_INPUT" not in norm.raw(r.ast):
+            continue  # PENDING keeps the flag's meaning; after COMPLETE the body parser is discarded
+        p = g.find_path([g.entry], lambda x, r=r: x is r, lambda x: x in clears, EXPLICIT)
+        if p is not None:
+            bad += 1
+            if bad == 1:
+                chk.violation(rule, r.ast, K.short(r.ast, 60), "self._paused = False on every path to a `need more input` return",
+                              "HttpPayloadParser.feed_data() can return `need more input` / `complete` with the pause flag still set (e.g. a read that ends exactly on a chunk boundary while the reader is over its high-water mark): after the reader drains and reading resumes, the next data is parked in _chunk_tail as pending input although nothing is paused, and the body never completes",
+                              path=g.fmt_path(p))
+    if not bad:
+        chk.ok(rule, fdp, f"every one of the {len([r for r in rets if 'PAYLOAD_NEEDS_INPUT' in norm.raw(r.ast)])} `need more input` returns of the body parser is reached only after the pause flag was cleared")
